@@ -9,4 +9,6 @@ go build -o "$ROOT/bin/check" ./cmd/check
 go build ./...
 go test -c -vet=off -o "$ROOT/bin/verif.test" ./props
 go build -o "$ROOT/bin/protoc-gen-gogo" github.com/gogo/protobuf/protoc-gen-gogo
+# warms the dependency build cache the case builds are seeded from (bin/gocache-deps-*) by replaying one saved case
+"$ROOT/check" C03 --replay "$ROOT/replays/C03/fixture-test-proto.json" >/dev/null || echo "note: warm-up replay did not pass (the checks will report why)"
 echo setup ok
